@@ -19,7 +19,7 @@ PROP = {
              "explicit empty prefixes #_ / $_, the builtin #, True, MsgAddressInt, CurrencyCollection — at random and once per "
              "run in a fixed schema `tlbforms`) plus one fixed schema using every "
              "type the builtin generators write into tlb/integers.go. For each schema: the real generator (tl/parser, "
-             "tlb/parser linked as libraries) is run three times and the outputs compared; the output is compiled in a scratch "
+             "tlb/parser linked as libraries) is run again after each of four variants of unrelated generator instances (every option function, custom type tables over the schema's own names, abi/parser, other schemas), from 8 goroutines concurrently, and in a fresh process (the compiled driver), all outputs compared; the output is compiled in a scratch "
              "Go module (one package per schema, one `go build ./...`, errors attributed per package); its structure is "
              "extracted (TL: go/ast extractor of C10 copied into harness/tlx; TL-B: harness/tlbdesc by reflection inside the "
              "compiled driver) and written with the schema into per-run files <work>/C09Tl*.v / C09Tlb*.v on which coqc "
